@@ -1,1 +1,179 @@
-From Pygls Require Import Model.Workspace Spec.WorkspaceSpec Proofs.WorkspaceProofs.
+(* C10 - The workspace equals the fold of the sync history, in arrival order.
+   Model: Model/Workspace.v (pygls/workspace/workspace.py + the built-in sync handlers of
+   pygls/protocol/language_server.py, after the fix of `{}` notebook metadata), on top of
+   Model/Doc.v for the text of one document (C04).
+   Reference: Spec/WorkspaceSpec.v (`spec_step` over lookup functions; `wf_op` / `wf_history`).
+   The clause "the notebook stored on open is a copy independent of the notification object" is
+   about object identity and cannot be expressed over immutable values: it is decided by the
+   correspondence run only (harness/c10.py mutates the params object of every notebook didOpen
+   inside a user handler before the workspace is read). *)
+From Coq Require Import ZArith NArith List Bool.
+From Pygls Require Import Base.AssocWs Model.Codec Model.Doc Model.Workspace Spec.WorkspaceSpec
+                          Proofs.WorkspaceProofs.
+Import ListNotations.
+Open Scope N_scope.
+
+(* For every configuration, initial folder list and well-formed history: what the workspace shows -
+   open documents and cells with text, version, language; notebooks with version, metadata, cells in
+   order with their data; the cell -> notebook index; the folders; and that no notification was
+   answered with an error - is the reference folded over the same history in arrival order.
+   (Every prefix of a well-formed history is well formed: `C10_prefix`; so this is the workspace
+   after EVERY message.) *)
+Definition C10_statement : Prop :=
+  forall cf fs h, wf_history cf fs h = true ->
+    obs_eq (observe (run_ws cf fs h)) (spec_run cf fs h).
+
+Theorem C10 : C10_statement.
+Proof. exact fold_refines. Qed.
+Print Assumptions C10.
+
+Theorem C10_prefix :
+  forall cf fs h1 h2, wf_history cf fs (h1 ++ h2) = true -> wf_history cf fs h1 = true.
+Proof. exact wf_prefix. Qed.
+
+(* The public lookups are functions of the observation: whenever a state shows an observation,
+   get_text_document (Open d | Disk uri) and get_notebook_document (by notebook uri, by cell uri,
+   notebook uri taking precedence) answer what the reference answers.  This is what the
+   correspondence run compares on the uri pools. *)
+Theorem C10_public_api :
+  forall s t, obs_eq (observe s) t ->
+    (forall u, match get_text_document s u, spec_get t u with
+               | Open d l, SOpen d' l' => d = d' /\ l = l'
+               | Disk a, SDisk b => a = b
+               | _, _ => False
+               end) /\
+    (forall c, get_notebook_document s None (Some c) = spec_nb_of_cell t c) /\
+    (forall n c, get_notebook_document s (Some n) c = o_nb t n) /\
+    get_notebook_document s None None = None.
+Proof.
+  intros s t [H1 H2 H3 H4 H5]. cbn in H1, H2, H3, H4, H5. repeat split.
+  - intros u. unfold get_text_document, spec_get. rewrite H1.
+    destruct (o_doc t u) as [[d l]|]; auto.
+  - intros c. unfold get_notebook_document, spec_nb_of_cell. rewrite H3.
+    destruct (o_cell t c); [apply H2|reflexivity].
+  - intros n c. apply H2.
+Qed.
+
+(* Closed documents and cells are absent and `get_text_document` answers Disk for them: in ANY
+   state for textDocument/didClose and notebookDocument/didClose, and after a well-formed notebook
+   change for the cells its structure part closes. *)
+Definition C10_closed_statement : Prop :=
+  (forall cf s u, get_text_document (impl_step cf s (DidClose u)) u = Disk u /\
+                  get_notebook_document (impl_step cf s (DidClose u)) None (Some u) = None) /\
+  (forall cf s n cs,
+     get_notebook_document (impl_step cf s (NbClose n cs)) (Some n) None = None /\
+     forall c, In c cs -> get_text_document (impl_step cf s (NbClose n cs)) c = Disk c /\
+                          get_notebook_document (impl_step cf s (NbClose n cs)) None (Some c) = None) /\
+  (forall cf fs h n v meta cc st c,
+     wf_history cf fs (h ++ [NbChange n v meta (Some cc)]) = true ->
+     cc_structure cc = Some st -> In c (st_close st) ->
+     get_text_document (run_ws cf fs (h ++ [NbChange n v meta (Some cc)])) c = Disk c).
+
+Theorem C10_closed : C10_closed_statement.
+Proof.
+  split; [|split].
+  - intros cf s u. split; [apply get_after_close_is_disk|apply (proj1 (closed_absent cf s) u)].
+  - intros cf s n cs. destruct (proj2 (closed_absent cf s) n cs) as [H1 H2]. split; [exact H1|].
+    intros c Hc. destruct (H2 c Hc) as [E1 E2]. split; [|exact E2].
+    unfold get_text_document. rewrite E1. reflexivity.
+  - exact closed_cell_absent.
+Qed.
+Print Assumptions C10_closed.
+
+(* Consistency of the derived index and absence of errors after a well-formed history *)
+Theorem C10_index :
+  forall cf fs h, wf_history cf fs h = true ->
+    let s := run_ws cf fs h in
+    (forall c n, aget c (w_cells s) = Some n -> aget c (w_docs s) <> None) /\
+    (forall n nb, aget n (w_nbs s) = Some nb -> nodupb (cell_docs (n_cells nb)) = true) /\
+    w_errs s = 0.
+Proof.
+  intros cf fs h Hw. destruct (index_consistent cf fs h Hw) as [H1 H2].
+  split; [exact H1|]. split; [exact H2|apply wf_no_error; exact Hw].
+Qed.
+
+(* What the text of a document IS after its changes is C04's subject: the document stored for a
+   session didOpen; didChange* on one uri is C04's `Doc.run` of that session. *)
+Theorem C10_text_is_C04 :
+  forall cf s u l v0 text ns,
+    aget u (w_docs (fold_left (impl_step cf)
+                     (DidOpen (u, l, v0, text) :: map (fun n => DidChange u (fst n) (snd n)) ns) s)) =
+    Some (run (fst cf) (snd cf) text v0 ns, l).
+Proof. exact session_is_doc_run. Qed.
+
+(* ---- the two classes well-formedness excludes (LSP leaves the order open): the model says what
+   the code does there, and it is not what the reference does ---- *)
+
+(* cell data naming a cell added by the same notification is dropped by the code (data is applied
+   before the splice) *)
+Example C10_order_open_cell_data :
+  let cf := (Utf16, SyncIncremental) in
+  let h := [NbOpen 1 (mkNb 1 None 0 []) [];
+            NbChange 1 2 None (Some (mkCC (Some (mkStruct 0 0 [mkCell 2 7 None None] [(7, 0, 1%Z, [97])] []))
+                                          [mkCell 1 7 (Some 5) None] []))] in
+  wf_history cf [] h = false /\
+  option_map n_cells (aget 1 (w_nbs (run_ws cf [] h))) = Some [mkCell 2 7 None None] /\
+  option_map n_cells (o_nb (spec_run cf [] h) 1) = Some [mkCell 1 7 (Some 5) None].
+Proof. vm_compute. repeat split. Qed.
+
+(* a folder both added and removed by one notification: present or absent depending on the list
+   positions (zip_longest interleaving) *)
+Example C10_order_open_folders :
+  let cf := (Utf16, SyncIncremental) in
+  wf_history cf [] [Folders [(1, 5); (2, 6)] [2]] = false /\
+  aget 2 (w_folders (run_ws cf [] [Folders [(1, 5); (2, 6)] [2]])) = Some 6 /\
+  aget 2 (w_folders (run_ws cf [] [Folders [(2, 6); (1, 5)] [2]])) = None /\
+  o_folder (spec_run cf [] [Folders [(1, 5); (2, 6)] [2]]) 2 = None.
+Proof. vm_compute. repeat split. Qed.
+
+(* ill-formed: a change for a document / notebook that is not open is answered with an error report
+   and changes nothing; an empty didChange for a closed uri is silently dropped *)
+Example C10_unopened :
+  let cf := (Utf16, SyncIncremental) in
+  w_errs (run_ws cf [] [DidChange 1 2 [Whole [97]]]) = 1 /\
+  w_errs (run_ws cf [] [NbChange 1 2 (Some 0) None]) = 1 /\
+  run_ws cf [] [DidChange 1 2 []] = init_ws [].
+Proof. vm_compute. repeat split. Qed.
+
+(* the repaired defect (DESIGN section 6 row 13): a change whose metadata is the empty object {}
+   (payload 0) replaces the notebook's metadata *)
+Example C10_empty_metadata_replaces :
+  let cf := (Utf16, SyncIncremental) in
+  let h := [NbOpen 1 (mkNb 1 (Some 2) 0 []) []; NbChange 1 2 (Some 0) None] in
+  wf_history cf [] h = true /\
+  option_map n_meta (aget 1 (w_nbs (run_ws cf [] h))) = Some (Some 0) /\
+  option_map n_version (aget 1 (w_nbs (run_ws cf [] h))) = Some 2%Z.
+Proof. vm_compute. repeat split. Qed.
+
+(* Non-vacuity: a well-formed history over two documents, a notebook with three cells and folders:
+   open, edit, notebook open, a change with {} metadata + splice (cell 12 out, cell 13 in, didOpen,
+   didClose) + data for a staying cell + text for the new cell, document close, folder change,
+   notebook close that leaves a cell document open. *)
+Example C10_nonvacuous :
+  let cf := (Utf16, SyncIncremental) in
+  let h := [DidOpen (1, 3, 1%Z, [97; 10; 98]);
+            DidChange 1 2 [Partial ((1, 0), (1, 1)) [88; 89]; Partial ((0, 0), (0, 0)) [90]];
+            NbOpen 20 (mkNb 1 (Some 4) 0 [mkCell 2 11 None None; mkCell 1 12 (Some 0) (Some 3)])
+                   [(11, 1, 1%Z, [99]); (12, 1, 1%Z, [100])];
+            NbChange 20 2 (Some 0)
+                     (Some (mkCC (Some (mkStruct 1 1 [mkCell 2 13 None None] [(13, 1, 1%Z, [])] [12]))
+                                 [mkCell 1 11 (Some 7) (Some 1)]
+                                 [(13, 5%Z, [Whole [101; 102]]); (11, 6%Z, [Partial ((0, 1), (0, 1)) [33]])]));
+            DidClose 1;
+            Folders [(1, 5); (2, 6)] [3];
+            NbClose 20 [11]] in
+  let s := run_ws cf [(3, 9)] h in
+  wf_history cf [(3, 9)] h = true /\
+  get_text_document s 1 = Disk 1 /\ get_text_document s 12 = Disk 12 /\ get_text_document s 11 = Disk 11 /\
+  (match get_text_document s 13 with Open d l => (source d, d_version d, l) | Disk _ => ([], None, 0) end)
+    = ([101; 102], Some 5%Z, 1) /\
+  get_notebook_document s (Some 20) None = None /\
+  get_notebook_document s None (Some 13) = None /\ aget 13 (w_cells s) = Some 20 /\
+  map fst (w_folders s) = [1; 2] /\
+  (let s4 := run_ws cf [(3, 9)] (firstn 4 h) in
+   get_notebook_document s4 None (Some 13) =
+     Some (mkNb 2 (Some 0) 0 [mkCell 1 11 (Some 7) (Some 1); mkCell 2 13 None None]) /\
+   (match get_text_document s4 1 with Open d l => source d | Disk _ => [] end) = [90; 97; 10; 88; 89] /\
+   (match get_text_document s4 11 with Open d l => (source d, d_version d) | Disk _ => ([], None) end)
+     = ([99; 33], Some 6%Z)).
+Proof. vm_compute. repeat split. Qed.
